@@ -1,1 +1,561 @@
-// placeholder
+// Unit lemmas for crates/searcher/src/line_buffer.rs (child module: private
+// fields and functions are visible).  Serve C02 (no byte lost, duplicated or
+// reordered by fill/roll/grow whatever the read sizes and capacity), C14
+// (quit: nothing at or after the first NUL is ever exposed; convert: every NUL
+// becomes the terminator; first-NUL offset), C16 (a failing read surfaces).
+
+const SRC_N: usize = 4;
+
+/// io::Read over a fully SYMBOLIC source of <= 4 bytes that returns a symbolic
+/// number of bytes (1..=2) per call and may fail at a symbolic call index.
+struct SymReader {
+    src: [u8; SRC_N],
+    len: usize,
+    pos: usize,
+    calls: usize,
+    chunk: [u8; 8],
+    err_at: usize,
+}
+
+impl SymReader {
+    fn any() -> SymReader {
+        let src: [u8; SRC_N] = kani::any();
+        let len: usize = kani::any();
+        kani::assume(len <= SRC_N);
+        let chunk: [u8; 8] = kani::any();
+        let mut i = 0;
+        while i < 8 {
+            kani::assume(chunk[i] >= 1 && chunk[i] <= 2);
+            i += 1;
+        }
+        SymReader { src, len, pos: 0, calls: 0, chunk, err_at: usize::MAX }
+    }
+}
+
+impl io::Read for SymReader {
+    fn read(&mut self, buf: &mut [u8]) -> io::Result<usize> {
+        let call = self.calls;
+        self.calls += 1;
+        if call == self.err_at {
+            return Err(io::Error::from(io::ErrorKind::Other));
+        }
+        let want = if call < 8 { self.chunk[call] as usize } else { 2 };
+        let left = self.len - self.pos;
+        let mut n = want;
+        if n > left {
+            n = left;
+        }
+        if n > buf.len() {
+            n = buf.len();
+        }
+        let mut k = 0;
+        while k < n {
+            buf[k] = self.src[self.pos + k];
+            k += 1;
+        }
+        self.pos += n;
+        Ok(n)
+    }
+}
+
+/// the initial capacity is concrete per harness instance (a symbolic
+/// allocation size makes every buffer access a symbolic-object access)
+fn any_lb(binary: BinaryDetection, cap: usize) -> LineBuffer {
+    LineBufferBuilder::new()
+        .capacity(cap)
+        .line_terminator(b'\n')
+        .binary_detection(binary)
+        .build()
+}
+
+/// Drive the buffer the way ReadByLine does -- fill, look at buffer(), consume
+/// a symbolic amount that ends on a line boundary (or everything at EOF), fill
+/// again -- for up to `rounds` rounds, and reconstruct the stream the consumer
+/// saw.  Returns (stream seen, its length, reached EOF, error seen).
+fn drive(lb: &mut LineBuffer, rdr: &mut SymReader, rounds: usize, out: &mut [u8; 2 * SRC_N]) -> (usize, bool, bool) {
+    let mut n = 0usize;
+    let mut eof = false;
+    let mut r = 0;
+    while r < rounds && !eof {
+        match lb.fill(&mut *rdr) {
+            Err(e) => {
+                std::mem::forget(e);
+                return (n, false, true);
+            }
+            Ok(more) => {
+                // representation invariant
+                assert!(lb.pos <= lb.last_lineterm && lb.last_lineterm <= lb.end && lb.end <= lb.buf.len(), "line buffer invariant");
+                let avail = lb.buffer().len();
+                if !more {
+                    assert!(avail == 0, "fill reports EOF only when nothing is left to consume");
+                    eof = true;
+                } else {
+                    assert!(avail > 0, "fill reporting data exposes at least one byte");
+                    // copy what the consumer sees, then consume all of it
+                    let mut k = 0;
+                    while k < avail {
+                        if n < 2 * SRC_N {
+                            out[n] = lb.buffer()[k];
+                        }
+                        n += 1;
+                        k += 1;
+                    }
+                    let before = lb.absolute_byte_offset();
+                    lb.consume(avail);
+                    assert!(lb.absolute_byte_offset() == before + avail as u64, "absolute offset advances by what was consumed");
+                }
+            }
+        }
+        r += 1;
+    }
+    (n, eof, false)
+}
+
+/// No binary detection: the concatenation of everything buffer() exposed is
+/// exactly the source, for every source, read fragmentation and capacity; the
+/// buffer only ever exposes whole lines until the reader is exhausted; the
+/// final absolute offset is the source length.
+#[kani::proof]
+#[kani::unwind(9)]
+fn c02_linebuffer_stream_cap1() {
+    c02_linebuffer_stream_body(1)
+}
+
+#[kani::proof]
+#[kani::unwind(9)]
+fn c02_linebuffer_stream_cap3() {
+    c02_linebuffer_stream_body(3)
+}
+
+fn c02_linebuffer_stream_body(cap: usize) {
+    let mut rdr = SymReader::any();
+    let mut lb = any_lb(BinaryDetection::None, cap);
+    let mut out = [0u8; 2 * SRC_N];
+    let (n, eof, err) = drive(&mut lb, &mut rdr, 6, &mut out);
+    assert!(!err, "no error without a failing reader");
+    assert!(eof, "EOF is reached within len+2 fills");
+    assert!(n == rdr.len, "every source byte is exposed exactly once");
+    let mut i = 0;
+    while i < SRC_N {
+        if i < rdr.len {
+            assert!(out[i] == rdr.src[i], "bytes are exposed in source order, unmodified");
+        }
+        i += 1;
+    }
+    assert!(lb.absolute_byte_offset() == rdr.len as u64, "final absolute offset is the source length");
+    assert!(lb.binary_byte_offset().is_none(), "no binary offset without detection");
+    kani::cover!(rdr.len == SRC_N && rdr.calls >= 3, "reach-end");
+    std::mem::forget(lb);
+}
+
+/// Every fill() that reports data exposes a buffer that ends in the terminator
+/// unless the reader is exhausted (whole lines only).
+#[kani::proof]
+#[kani::unwind(9)]
+fn c02_linebuffer_whole_lines_cap1() {
+    c02_linebuffer_whole_lines_body(1)
+}
+
+#[kani::proof]
+#[kani::unwind(9)]
+fn c02_linebuffer_whole_lines_cap3() {
+    c02_linebuffer_whole_lines_body(3)
+}
+
+fn c02_linebuffer_whole_lines_body(cap: usize) {
+    let mut rdr = SymReader::any();
+    let mut lb = any_lb(BinaryDetection::None, cap);
+    let rounds: usize = kani::any();
+    kani::assume(rounds <= 3);
+    let mut r = 0;
+    while r < rounds {
+        match lb.fill(&mut rdr) {
+            Err(e) => {
+                std::mem::forget(e);
+                assert!(false, "no error without a failing reader");
+            }
+            Ok(true) => {
+                let b = lb.buffer();
+                assert!(!b.is_empty());
+                assert!(b[b.len() - 1] == b'\n' || rdr.pos == rdr.len, "a partial line is exposed only at end of input");
+                let amt = b.len();
+                lb.consume(amt);
+            }
+            Ok(false) => {}
+        }
+        r += 1;
+    }
+    kani::cover!(rounds == 3 && rdr.pos >= 3, "reach-end");
+    std::mem::forget(lb);
+}
+
+/// Quit detection: nothing at or after the first NUL of the source is ever
+/// exposed, what is exposed is the source prefix before it, and the recorded
+/// binary offset is exactly the first NUL's offset (none if there is no NUL).
+#[kani::proof]
+#[kani::unwind(9)]
+fn c14_linebuffer_quit_cap1() {
+    c14_linebuffer_quit_body(1)
+}
+
+#[kani::proof]
+#[kani::unwind(9)]
+fn c14_linebuffer_quit_cap3() {
+    c14_linebuffer_quit_body(3)
+}
+
+fn c14_linebuffer_quit_body(cap: usize) {
+    let mut rdr = SymReader::any();
+    let mut lb = any_lb(BinaryDetection::Quit(0), cap);
+    let mut out = [0u8; 2 * SRC_N];
+    let (n, eof, err) = drive(&mut lb, &mut rdr, 6, &mut out);
+    assert!(!err && eof);
+    let mut first = usize::MAX;
+    let mut i = 0;
+    while i < SRC_N {
+        if i < rdr.len && rdr.src[i] == 0 && first == usize::MAX {
+            first = i;
+        }
+        i += 1;
+    }
+    if first == usize::MAX {
+        assert!(n == rdr.len, "without a NUL the whole source is exposed");
+        assert!(lb.binary_byte_offset().is_none(), "no NUL, no binary offset");
+    } else {
+        assert!(n == first, "exactly the bytes before the first NUL are exposed");
+        assert!(lb.binary_byte_offset() == Some(first as u64), "binary offset is the first NUL's offset");
+    }
+    let mut i = 0;
+    while i < SRC_N {
+        if i < n {
+            assert!(out[i] == rdr.src[i] && out[i] != 0, "no NUL byte is ever exposed in quit mode");
+        }
+        i += 1;
+    }
+    kani::cover!(first != usize::MAX && first >= 2 && rdr.calls >= 3, "reach-end");
+    std::mem::forget(lb);
+}
+
+/// Convert detection: the exposed stream is the source with every NUL replaced
+/// by the terminator, and the recorded offset is the first NUL's.
+#[kani::proof]
+#[kani::unwind(9)]
+fn c14_linebuffer_convert_cap1() {
+    c14_linebuffer_convert_body(1)
+}
+
+#[kani::proof]
+#[kani::unwind(9)]
+fn c14_linebuffer_convert_cap3() {
+    c14_linebuffer_convert_body(3)
+}
+
+fn c14_linebuffer_convert_body(cap: usize) {
+    let mut rdr = SymReader::any();
+    let mut lb = any_lb(BinaryDetection::Convert(0), cap);
+    let mut out = [0u8; 2 * SRC_N];
+    let (n, eof, err) = drive(&mut lb, &mut rdr, 6, &mut out);
+    assert!(!err && eof);
+    assert!(n == rdr.len, "convert mode exposes every byte position");
+    let mut first = usize::MAX;
+    let mut i = 0;
+    while i < SRC_N {
+        if i < rdr.len {
+            if rdr.src[i] == 0 {
+                if first == usize::MAX {
+                    first = i;
+                }
+                assert!(out[i] == b'\n', "every NUL is replaced by the line terminator");
+            } else {
+                assert!(out[i] == rdr.src[i], "other bytes are unchanged");
+            }
+        }
+        i += 1;
+    }
+    if first == usize::MAX {
+        assert!(lb.binary_byte_offset().is_none());
+    } else {
+        assert!(lb.binary_byte_offset() == Some(first as u64), "binary offset is the first NUL's offset");
+    }
+    kani::cover!(first != usize::MAX && rdr.calls >= 3, "reach-end");
+    std::mem::forget(lb);
+}
+
+/// replace_bytes on fully symbolic bytes: every `src` byte becomes
+/// `replacement`, nothing else changes, the result is the first index.
+#[kani::proof]
+#[kani::unwind(9)]
+fn c14_replace_bytes() {
+    let mut buf: [u8; SRC_N] = kani::any();
+    let orig = buf;
+    let len: usize = kani::any();
+    kani::assume(len <= SRC_N);
+    let src: u8 = kani::any();
+    let rep: u8 = kani::any();
+    let got = replace_bytes(&mut buf[..len], src, rep);
+    let mut first = usize::MAX;
+    let mut i = 0;
+    while i < SRC_N {
+        if i < len {
+            if orig[i] == src {
+                if first == usize::MAX {
+                    first = i;
+                }
+                assert!(buf[i] == rep, "every occurrence is replaced");
+            } else {
+                assert!(buf[i] == orig[i], "other bytes are unchanged");
+            }
+        } else {
+            assert!(buf[i] == orig[i], "bytes outside the slice are untouched");
+        }
+        i += 1;
+    }
+    if src == rep {
+        assert!(got.is_none(), "identity replacement reports nothing");
+    } else if first == usize::MAX {
+        assert!(got.is_none());
+    } else {
+        assert!(got == Some(first), "the offset of the first replacement is returned");
+    }
+    kani::cover!(first != usize::MAX && first + 2 < len, "reach-end");
+}
+
+/// A failing read is returned to the caller by fill(); what had been exposed
+/// before is a prefix of the source.
+#[kani::proof]
+#[kani::unwind(9)]
+fn c16_linebuffer_read_error() {
+    let mut rdr = SymReader::any();
+    let j: usize = kani::any();
+    kani::assume(j < 6);
+    rdr.err_at = j;
+    let mut lb = any_lb(BinaryDetection::None, 2);
+    let mut out = [0u8; 2 * SRC_N];
+    let (n, eof, err) = drive(&mut lb, &mut rdr, 6, &mut out);
+    if rdr.calls > j {
+        assert!(err && !eof, "the reader's error surfaces from fill");
+    } else {
+        assert!(!err && eof);
+    }
+    assert!(n <= rdr.len);
+    let mut i = 0;
+    while i < SRC_N {
+        if i < n {
+            assert!(out[i] == rdr.src[i], "what was exposed before the error is a source prefix");
+        }
+        i += 1;
+    }
+    kani::cover!(err && n >= 2, "reach-end");
+    std::mem::forget(lb);
+}
+
+// ---------------------------------------------------------------------------
+// One inductive step of LineBuffer::fill from an ARBITRARY valid state (the
+// multi-round drivers above do not terminate under symbolic fragmentation:
+// > 15 min at 4 source bytes).  State: a 4-byte buffer with symbolic contents
+// and symbolic pos <= last_lineterm <= end satisfying the representation
+// invariant; reader: symbolic source of <= 3 bytes, symbolic read sizes.
+// With `consume` (pos += amt, offset += amt: checked inside), the stream
+// property of C02 / the exposure properties of C14 follow by induction over
+// fill/consume rounds -- that induction is argued, not mechanised.
+
+const B0: usize = 4; // initial buffer length
+const R_N: usize = 3; // bytes the reader can still deliver
+
+struct StepReader {
+    src: [u8; R_N],
+    len: usize,
+    pos: usize,
+    calls: usize,
+    chunk: [u8; 4],
+}
+
+impl io::Read for StepReader {
+    fn read(&mut self, buf: &mut [u8]) -> io::Result<usize> {
+        let call = self.calls;
+        self.calls += 1;
+        let want = if call < 4 { self.chunk[call] as usize } else { 2 };
+        let left = self.len - self.pos;
+        let mut n = want;
+        if n > left {
+            n = left;
+        }
+        if n > buf.len() {
+            n = buf.len();
+        }
+        let mut k = 0;
+        while k < n {
+            buf[k] = self.src[self.pos + k];
+            k += 1;
+        }
+        self.pos += n;
+        Ok(n)
+    }
+}
+
+fn any_state(binary: BinaryDetection) -> (LineBuffer, StepReader, [u8; B0]) {
+    let content: [u8; B0] = kani::any();
+    let pos: usize = kani::any();
+    let llt: usize = kani::any();
+    let end: usize = kani::any();
+    kani::assume(pos <= llt && llt <= end && end <= B0);
+    // representation invariant: the exposed part ends in the terminator (or is
+    // empty), the tail after it holds no terminator
+    kani::assume(llt == pos || content[llt - 1] == b'\n');
+    let mut i = 0;
+    while i < B0 {
+        kani::assume(!(i >= llt && i < end) || content[i] != b'\n');
+        i += 1;
+    }
+    let mut buf = vec![0u8; B0];
+    let mut i = 0;
+    while i < B0 {
+        buf[i] = content[i];
+        i += 1;
+    }
+    let off: u64 = kani::any();
+    kani::assume(off <= 1000);
+    let lb = LineBuffer {
+        config: Config { capacity: B0, lineterm: b'\n', buffer_alloc: BufferAllocation::Eager, binary },
+        buf,
+        pos,
+        last_lineterm: llt,
+        end,
+        absolute_byte_offset: off,
+        binary_byte_offset: None,
+    };
+    let src: [u8; R_N] = kani::any();
+    let len: usize = kani::any();
+    kani::assume(len <= R_N);
+    let chunk: [u8; 4] = kani::any();
+    let mut i = 0;
+    while i < 4 {
+        kani::assume(chunk[i] >= 1 && chunk[i] <= 2);
+        i += 1;
+    }
+    (lb, StepReader { src, len, pos: 0, calls: 0, chunk }, content)
+}
+
+/// pending(before) ++ bytes read == pending(after); exposed part is the
+/// longest terminator-ended prefix (everything at EOF); offset untouched.
+fn check_step(binary: BinaryDetection) {
+    let (mut lb, mut rdr, content) = any_state(binary);
+    let (pos0, end0, off0) = (lb.pos, lb.end, lb.absolute_byte_offset);
+    if let BinaryDetection::Quit(b) | BinaryDetection::Convert(b) = binary {
+        // invariant of the detecting modes: nothing pending is a binary byte
+        let mut i = 0;
+        while i < B0 {
+            kani::assume(!(i >= pos0 && i < end0) || content[i] != b);
+            i += 1;
+        }
+    }
+    let r = lb.fill(&mut rdr);
+    let more = match r {
+        Ok(m) => m,
+        Err(e) => {
+            std::mem::forget(e);
+            assert!(false, "fill does not fail without a failing reader");
+            return;
+        }
+    };
+    assert!(lb.pos == 0, "fill rolls the pending bytes to the front");
+    assert!(lb.last_lineterm <= lb.end && lb.end <= lb.buf.len(), "line buffer invariant");
+    assert!(lb.absolute_byte_offset == off0, "fill does not move the absolute offset");
+    let pend0 = end0 - pos0;
+    // first binary byte among the bytes the reader delivered
+    let mut first_bin = usize::MAX;
+    if let BinaryDetection::Quit(b) | BinaryDetection::Convert(b) = binary {
+        let mut i = 0;
+        while i < R_N {
+            if i < rdr.pos && rdr.src[i] == b && first_bin == usize::MAX {
+                first_bin = i;
+            }
+            i += 1;
+        }
+    }
+    let quit_hit = matches!(binary, BinaryDetection::Quit(_)) && first_bin != usize::MAX;
+    let kept_new = if quit_hit { first_bin } else { rdr.pos };
+    assert!(lb.end == pend0 + kept_new, "pending bytes = old pending ++ bytes read (cut at the binary byte in quit mode)");
+    let mut i = 0;
+    while i < B0 {
+        if i < pend0 {
+            assert!(lb.buf[i] == content[pos0 + i], "old pending bytes are preserved in order");
+        }
+        i += 1;
+    }
+    let mut i = 0;
+    while i < R_N {
+        if i < kept_new {
+            let want = match binary {
+                BinaryDetection::Convert(b) if rdr.src[i] == b => b'\n',
+                _ => rdr.src[i],
+            };
+            assert!(lb.buf[pend0 + i] == want, "new bytes are appended in order (binary byte converted to the terminator in convert mode)");
+        }
+        i += 1;
+    }
+    match binary {
+        BinaryDetection::None => assert!(lb.binary_byte_offset.is_none()),
+        _ => {
+            if first_bin == usize::MAX {
+                assert!(lb.binary_byte_offset.is_none(), "no binary byte, no binary offset");
+            } else {
+                assert!(
+                    lb.binary_byte_offset == Some(off0 + (pend0 + first_bin) as u64),
+                    "binary offset is the absolute offset of the first binary byte"
+                );
+            }
+        }
+    }
+    // what is exposed
+    let exposed = lb.last_lineterm;
+    let mut i = 0;
+    while i < B0 + R_N {
+        if i < exposed {
+            if let BinaryDetection::Quit(b) | BinaryDetection::Convert(b) = binary {
+                assert!(lb.buf[i] != b, "no binary byte is ever exposed");
+            }
+        }
+        i += 1;
+    }
+    let at_eof = rdr.pos == rdr.len && !quit_hit;
+    if exposed < lb.end {
+        assert!(exposed == 0 || lb.buf[exposed - 1] == b'\n', "exposed part ends in the terminator");
+        let mut i = 0;
+        while i < B0 + R_N {
+            if i >= exposed && i < lb.end {
+                assert!(lb.buf[i] != b'\n', "the unexposed tail holds no complete line");
+            }
+            i += 1;
+        }
+        assert!(!quit_hit, "in quit mode everything before the binary byte is exposed");
+    } else {
+        assert!(at_eof || quit_hit || (exposed > 0 && lb.buf[exposed - 1] == b'\n'), "a partial line is exposed only at end of input");
+    }
+    assert!(more == (exposed > 0), "fill reports data iff something is exposed");
+    // consume: advances pos and the absolute offset together
+    let amt: usize = kani::any();
+    kani::assume(amt <= exposed);
+    lb.consume(amt);
+    assert!(lb.pos == amt && lb.absolute_byte_offset == off0 + amt as u64, "consume advances position and absolute offset together");
+    kani::cover!(rdr.pos >= 2 && pend0 >= 1 && exposed >= 2, "reach-end");
+    std::mem::forget(lb);
+}
+
+#[kani::proof]
+#[kani::unwind(9)]
+fn c02_linebuffer_step() {
+    check_step(BinaryDetection::None)
+}
+
+#[kani::proof]
+#[kani::unwind(9)]
+fn c14_linebuffer_step_quit() {
+    check_step(BinaryDetection::Quit(0))
+}
+
+#[kani::proof]
+#[kani::unwind(9)]
+fn c14_linebuffer_step_convert() {
+    check_step(BinaryDetection::Convert(0))
+}
